@@ -34,39 +34,43 @@ PathOracle(e) == /\ \A i \in DOMAIN e.paths0 : PathValid(e.paths0[i]) = e.pv0[i]
                  /\ \A i \in DOMAIN e.paths1 : PathValid(e.paths1[i]) = e.pv1[i]
 
 B2I(b) == IF b THEN 0 ELSE 1
-LexGoals(e) ==
-  LET t0 == Lx!Lex(e.in) t1 == Lx!Lex(e.out) IN
+\* (t0, t1 are bound by a quantifier over a singleton set so that TLC lexes each text once)
+LexGoals(t0, t1) ==
   IF Lx!LexJudged(t0) /\ Lx!LexJudged(t1)
   THEN << [g |-> "tla.lex.script", bad0 |-> B2I(Lx!LexValidScript(t0)), bad1 |-> B2I(Lx!LexValidScript(t1))],
           [g |-> "tla.lex.module", bad0 |-> B2I(Lx!LexValidModule(t0)), bad1 |-> B2I(Lx!LexValidModule(t1))] >>
   ELSE <<>>
 \* lexical validity is necessary for syntactic validity: V8 accepting what the TLA+ lexer rejects is a machinery error
-LexOracle(e) ==
-  LET t0 == Lx!Lex(e.in) t1 == Lx!Lex(e.out) IN
+LexOracle(e, t0, t1) ==
   /\ (Lx!LexJudged(t0) /\ e.v8s0 = 1) => Lx!LexValidScript(t0)
   /\ (Lx!LexJudged(t0) /\ e.v8m0 = 1) => Lx!LexValidModule(t0)
   /\ (Lx!LexJudged(t1) /\ e.v8s1 = 1) => Lx!LexValidScript(t1)
   /\ (Lx!LexJudged(t1) /\ e.v8m1 = 1) => Lx!LexValidModule(t1)
 
-AllGoals(e) == e.goals \o (IF e.lang = "svg" THEN <<PathGoal(e)>> ELSE <<>>) \o (IF e.adj = 1 THEN LexGoals(e) ELSE <<>>)
-Events(e) ==
+Events(e, gs) ==
   <<[k |-> "min1", ok |-> e.acc1]>> \o
-  (IF e.acc1 THEN <<[k |-> "judge", ok |-> \A i \in DOMAIN AllGoals(e) : Cl!GoalOK(AllGoals(e)[i])]>> \o
+  (IF e.acc1 THEN <<[k |-> "judge", ok |-> \A i \in DOMAIN gs : Cl!GoalOK(gs[i])]>> \o
                   (IF e.ran2 THEN <<[k |-> "min2", ok |-> e.acc2]>> ELSE <<>>)
    ELSE <<>>)
 
-LineOK(e) ==
-  LET gs == AllGoals(e)
-      ps == Cl!PipeStates(Events(e))
-      last == ps[Len(ps)]
-  IN /\ (PathOracle(e) \/ Reject(l, "oracle: TLA+ and Go path recognisers disagree"))
-     /\ (e.adj # 1 \/ LexOracle(e) \/ Reject(l, "oracle: V8 accepts what the TLA+ lexer rejects"))
-     /\ (last.stage \in Cl!Terminal \/ Reject(l, "pipeline did not terminate"))
+Judge(e, gs) ==
+  \E ps \in {Cl!PipeStates(Events(e, gs))} :
+     /\ (ps[Len(ps)].stage \in Cl!Terminal \/ Reject(l, "pipeline did not terminate"))
      \* name the judgement(s) behind a Valid1 rejection
      /\ (~e.acc1 \/ \A i \in DOMAIN gs : Cl!GoalOK(gs[i]) \/ Reject(l, gs[i].g))
      \* the property: PipeInv in every state the record drives the pipeline through
      /\ ((\A i \in DOMAIN ps : ps[i].stage \notin {"Judged", "Out2", "Err2"} \/ ps[i].valid) \/ Reject(l, "Valid1"))
      /\ ((\A i \in DOMAIN ps : ps[i].stage \notin {"Out2", "Err2"} \/ ps[i].acc2) \/ Reject(l, "Accepted2"))
      /\ ((\A i \in DOMAIN ps : Cl!PipeInv(ps[i])) \/ Reject(l, "PipeInv"))
+
+LineOK(e) ==
+  IF e.adj = 1 /\ e.acc1 THEN
+     \E t0 \in {Lx!Lex(e.in)}, t1 \in {Lx!Lex(e.out)} :
+        /\ (LexOracle(e, t0, t1) \/ Reject(l, "oracle: V8 accepts what the TLA+ lexer rejects"))
+        /\ \E gs \in {e.goals \o LexGoals(t0, t1)} : Judge(e, gs)
+  ELSE IF e.lang = "svg" /\ e.acc1 THEN
+     /\ (PathOracle(e) \/ Reject(l, "oracle: TLA+ and Go path recognisers disagree"))
+     /\ \E gs \in {e.goals \o <<PathGoal(e)>>} : Judge(e, gs)
+  ELSE Judge(e, e.goals)
 Conforms == l <= N => LineOK(Trace[l])
 =============================================================================
